@@ -8,7 +8,7 @@
 //@ struct file=src/sys/fs/memfs/file.rs name=MemfsFile
 //@ endstruct
 //@ struct file=src/sys/fs/memfs/entry.rs name=MemfsEntry
-//@ rw R4 1 ⟦Option<HashSet<String>>⟧ => ⟦Option<NameSet>⟧
+//@ rw R4 * ⟦Option<HashSet<String>>⟧ => ⟦Option<NameSet>⟧
 //@ endstruct
 
 // R7: `dst[..n].copy_from_slice(&src[a..b])` -- the preconditions are exactly Rust's panic conditions
